@@ -533,12 +533,14 @@ class HostMatches(Matcher):
             self.host_pattern = host_pattern
 
     def match(self, request: httputil.HTTPServerRequest) -> dict[str, Any] | None:
-        match = self.host_pattern.match(request.host_name)
-        if match is None:
-            return None
         # "$" also matches before a trailing newline, and an escaped "\$" at
-        # the end of the pattern is not an anchor at all.
-        if self._whole and match.end() != len(request.host_name):
+        # the end of the pattern is not an anchor at all, so string patterns
+        # are matched against the whole host name explicitly.
+        if self._whole:
+            match = self.host_pattern.fullmatch(request.host_name)
+        else:
+            match = self.host_pattern.match(request.host_name)
+        if match is None:
             return None
         return {}
 
@@ -581,12 +583,14 @@ class PathMatches(Matcher):
         self._path, self._group_count = self._find_groups()
 
     def match(self, request: httputil.HTTPServerRequest) -> dict[str, Any] | None:
-        match = self.regex.match(request.path)
-        if match is None:
-            return None
         # "$" also matches before a trailing newline, and an escaped "\$" at
-        # the end of the pattern is not an anchor at all.
-        if self._whole and match.end() != len(request.path):
+        # the end of the pattern is not an anchor at all, so string patterns
+        # are matched against the whole path explicitly.
+        if self._whole:
+            match = self.regex.fullmatch(request.path)
+        else:
+            match = self.regex.match(request.path)
+        if match is None:
             return None
         if not self.regex.groups:
             return {}
